@@ -30,11 +30,27 @@ def _guard(c, name, n, seed=None, corr=G_CORR, replay=None, stream=0):
                          "different creations, every table operation attempted with a stale and a current identifier)"})
 
 
+# LinkNode / MonitorNode against unregisterConnection (connections.Delete, RouteNodeDown): every
+# interleaving on two real nodes, model and theorems in the Rel race family (Rel/NodeRace*.v,
+# C04_node_race_exactly_one); harness `rel ilvnode`
+N_IMPORTS = ("From Ergo Require Import Common.Base Rel.Amap Rel.Model Rel.RaceGen Rel.RaceGenCases Rel.NodeRace Rel.NodeRaceCases.\n"
+             "Local Open Scope N_scope.")
+
+
+def _node_race(c, replay=None):
+    out = c.harness("rel", ["ilvnode", "-replay", replay] if replay else ["ilvnode", "-n", "0"], timeout=600)
+    if out:
+        c.cases("ilvnode", out, N_IMPORTS, "ncase", corr=["corr_node"], spec=["spec_node"], premise=["premise_node"])
+
+
 def _replay_kind(path):
     import json
     try:
         d = json.load(open(path))
-        return (d.get("case") or d).get("kind", "")
+        case = d.get("case") or d
+        if case.get("mode") == "ilvnode":
+            return "ilvnode"
+        return case.get("kind", "")
     except Exception:
         return ""
 
@@ -91,6 +107,13 @@ def run(c):
     if c.replay and _replay_kind(c.replay) == "guard":
         _guard(c, "guard", 1, replay=c.replay)
         return
+    if c.replay and _replay_kind(c.replay) == "ilvnode":
+        _node_race(c, replay=c.replay)
+        return
+    if not c.replay:
+        _node_race(c)
+        if c.violations:
+            return
     _guard(c, "guard", ng)
     if c.broken and not c.violations and not c.replay:
         keep = list(c.broken)
@@ -128,4 +151,6 @@ def run(c):
         "a response written for a stale (pid, ref) pair would be dropped by the twin unless it is waiting for a response itself: for SendResponse / SendResponseError "
         "the observation is the returned error and the frame counter, not the twin's mailbox",
         "the race between the answer to a link/monitor request and the loss of the connection inside RouteLink* (relation inserted after CleanupNode ran) is outside the model: operations are atomic with respect to node-down",
+        "LinkNode / MonitorNode against the loss of the connection IS covered for all interleavings (Rel/NodeRace*.v, theorem C04_node_race_exactly_one, "
+        "runs 'ilvnode': both threads parked at the target manager calls on two real nodes; a lookup without connection fails because the static route is removed)",
     ]
